@@ -7,6 +7,7 @@
 #include <boost/multi/adaptors/mpi.hpp>
 #include <set>
 #include <optional>
+#include <sys/mman.h>
 using namespace vk;
 
 #ifndef C18_T
@@ -89,10 +90,42 @@ template<int D> void one(Case& c, Prog const& p) {
 	MpiVis vis{A.data_elements(), m.n(), &c.rng}; Interp<MpiVis> I{vis, p}; I.run(A(), m, 0, "root");
 }
 
+// Strides of 2 GiB and more (in bytes): the datatype carries them as MPI_Aint. The block is a lazily committed anonymous mapping of which only a few pages are touched.
+static void huge_stride_probe(Case& c) {
+	Rng& g = c.rng; int const w = int(g.below(3)); std::size_t const stride_bytes = (w == 0 ? (std::size_t(1) << 31) : (w == 1 ? (std::size_t(1) << 31) + 4 * sizeof(T) : (std::size_t(1) << 32) + 2 * sizeof(T)));
+	L const rows = 2 + L(g.below(2)), cols = L(stride_bytes / sizeof(T)), W = 4; std::size_t const total = std::size_t(rows) * stride_bytes;
+	describe("huge-stride probe: " + std::to_string(rows) + " rows " + std::to_string(stride_bytes) + " bytes apart"); sig_mix("huge-stride"); sig_mix(std::uint64_t(w)); op("huge-stride:mmap");
+	void* mp = mmap(nullptr, total, PROT_READ | PROT_WRITE, MAP_PRIVATE | MAP_ANONYMOUS | MAP_NORESERVE, -1, 0);
+	if(mp == MAP_FAILED) { count("huge-stride-probe:mapping-refused(skipped)"); return; }
+	{ T* const p = static_cast<T*>(mp); multi::array_ref<T, 2> R({rows, cols}, p); auto val = [](L i, L j) { return T(100 * (i + 1) + j); };
+		auto reset = [&] { for(L i = 0; i < rows; ++i) for(L j = 0; j < W + 2; ++j) p[i * cols + j] = val(i, j); }; std::size_t const live0 = tl().created.size();
+		int const kind = int(g.below(3)); static char const* KN[] = {"sub-block", "column", "transposed-sub-block"}; std::string const K = std::string("C18:huge-stride:") + KN[kind] + ":"; sig_mix(std::uint64_t(kind)); count(std::string("huge-stride-probe:") + KN[kind]);
+		std::vector<std::pair<L, L>> want;  // (i, j) of the k-th element in canonical order
+		auto run = [&](auto&& v) { reset(); L const N = L(want.size()); op("huge-stride:message(elements)"); mpi::message<> msg(v.elements());
+			std::vector<char> pk(std::size_t(N) * sizeof(T) + 64, char(0x5A)); int pos = 0; op("huge-stride:MPI_Pack"); MPI_Pack(msg.buffer(), msg.count(), msg.datatype(), pk.data(), int(pk.size()), &pos, MPI_COMM_SELF);
+			if(pos != int(std::size_t(N) * sizeof(T))) violation(K + "pack:size", "packing the message yields " + std::to_string(pos) + " bytes for " + std::to_string(N) + " elements");
+			else for(L k = 0; k < N; ++k) { T x; std::memcpy(&x, pk.data() + std::size_t(k) * sizeof(T), sizeof(T)); if(!(x == val(want[std::size_t(k)].first, want[std::size_t(k)].second))) { violation(K + "pack:order", "packed element " + std::to_string(k) + " is not the k-th element of the view (rows " + std::to_string(stride_bytes) + " bytes apart)"); break; } }
+			for(L k = 0; k < N; ++k) { T x = T(5000 + k); std::memcpy(pk.data() + std::size_t(k) * sizeof(T), &x, sizeof(T)); } int p2 = 0; op("huge-stride:MPI_Unpack"); MPI_Unpack(pk.data(), int(std::size_t(N) * sizeof(T)), &p2, msg.buffer(), msg.count(), msg.datatype(), MPI_COMM_SELF);
+			std::set<std::pair<L, L>> in(want.begin(), want.end());
+			for(L k = 0; k < N; ++k) if(!(p[want[std::size_t(k)].first * cols + want[std::size_t(k)].second] == T(5000 + k))) { violation(K + "unpack:k-th-to-k-th", "unpacked element " + std::to_string(k) + " did not arrive at the k-th element of the view"); break; }
+			for(L i = 0; i < rows; ++i) for(L j = 0; j < W + 2; ++j) if(!in.count({i, j}) && !(p[i * cols + j] == val(i, j))) { violation(K + "unpack:outside-view", "an element outside the view was overwritten"); i = rows; break; }
+			count("messages", 1); count("elements_compared", 2 * N); };
+		switch(kind) {
+		case 0: for(L i = 0; i < rows; ++i) for(L j = 1; j <= W; ++j) want.push_back({i, j}); run(R({0, rows}, {1, 1 + W})); break;
+		case 1: for(L i = 0; i < rows; ++i) want.push_back({i, 2}); run(R.rotated()[2]); break;
+		default: for(L j = 1; j <= W; ++j) for(L i = 0; i < rows; ++i) want.push_back({i, j}); run(R.transposed()({1, 1 + W}, {0, rows})); break;
+		}
+		for(auto const& pr : tl().problems) violation(K + "datatype:lifecycle", pr, false); tl().problems.clear();
+		if(tl().created.size() != live0) violation(K + "datatype:leaked", "derived datatype(s) created for a message were never freed");
+		nontrivial(true); }
+	munmap(mp, total);
+}
+
 int main(int argc, char** argv) {
 	MPI_Init(&argc, &argv);
 	int rc = main_loop(argc, argv, [&](Case& c) {
 		static bool init = false; if(!init) { init = true; auto& a = st().args; for(std::size_t i = 0; i + 1 < a.size(); ++i) { if(a[i] == "--maxext") cfg.max_ext = std::atoi(a[i + 1].c_str()); if(a[i] == "--maxops") cfg.max_ops = std::atoi(a[i + 1].c_str()); } }
+		if(c.k % 50 == 7) { huge_stride_probe(c); return; }
 		Prog p = gen_prog(c.rng, cfg);
 		switch(p.root.size()) { case 1: one<1>(c, p); break; case 2: one<2>(c, p); break; case 3: one<3>(c, p); break; default: one<4>(c, p); break; }
 	});
